@@ -674,7 +674,7 @@ func init() {
 	run.Register(&run.Spec{
 		ID: "C16", Run: runC16, Level: "exploration",
 		Rule: "(1) every built-in / operator x every parameter position whose type is not a bare type variable: the call with that argument replaced by an optional of exactly the required type, in call / infix / prefix / method / ternary form (exhaustive over the function table); (2) 21 hand-listed misuse shapes (member / subscript on optionals, optional as index or key, optional fields nested in objects / list elements in arithmetic, == on optionals, optional mixed with plain in lists / branches, defaults of the wrong type, nested optionals): all must be refused at the type-check stage; " +
-			"(3) random programs over environments with present / absent optionals as variables and nested in objects, lists and maps, forced get(optional, default) consumptions, run on 4 back ends from raw environments and through yae.Eval over reflection-built structs with nil / non-nil pointers, slices and maps: never an internal fault, value == reference evaluator; (4) host slices of structs with untagged pointer fields in every presence pattern and one Callable invoked with present / absent values alternately: an absent value is never read as a value of the underlying type. (6) a struct host embedding by value a struct with a pointer field, present / absent alternately through Eval and two engines; (7) the optional below 1..70 list / map / object levels of an otherwise identical type; (5) one engine and one *types.Env updated in place so that a variable alternates between T and maybe[T], the same ten texts recompiled after every update on three back ends: acceptance follows the environment of that moment. distinct = distinct source",
+			"(3) random programs over environments with present / absent optionals as variables and nested in objects, lists and maps, forced get(optional, default) consumptions, run on 4 back ends of the plain pipeline plus 2 long-lived public engines from raw environments and through yae.Eval over reflection-built structs with nil / non-nil pointers, slices and maps: never an internal fault, value == reference evaluator; (4) host slices of structs with untagged pointer fields in every presence pattern and one Callable invoked with present / absent values alternately: an absent value is never read as a value of the underlying type. (6) a struct host embedding by value a struct with a pointer field, present / absent alternately through Eval and two engines; (7) the optional below 1..70 list / map / object levels of an otherwise identical type; (5) one engine and one *types.Env updated in place so that a variable alternates between T and maybe[T], the same ten texts recompiled after every update on three back ends: acceptance follows the environment of that moment. distinct = distinct source",
 		Assume:    []string{"parameters that are bare type variables (string, print, if branches, list elements, fst ...) accept optionals by design; the reference checker decides there"},
 		MinEvents: 1000, EventKey: "optional_programs",
 	})
